@@ -315,8 +315,10 @@ class Pool(object):
                     w.process(None)
                 self.closed = True
             time.sleep(0.1)
-            idle, self.idle = self.idle, set()
-            busy, self.busy = self.busy, set()
+            with self.count_lock:
+                # (under the lock: a worker may be in notify_done right now)
+                idle, self.idle = self.idle, set()
+                busy, self.busy = self.busy, set()
             # check if the threads that are joined are not the current thread.
             current_thread = threading.current_thread()
             while idle:
